@@ -516,7 +516,7 @@ def main(argv=None):
         "coverage": {
             "obligations": obligations,
             "discharged": discharged,
-            "checker_cmd": f"cd lean && lake build {' '.join(modules)} && lake env lean .audit/{prop}.lean  (#audit_ns: collectAxioms per theorem) ; source scan for sorry/admit/axiom/native_decide/bv_decide",
+            "checker_cmd": f"cd lean && lake build {' '.join(modules)} && lake env lean .audit/{prop}.lean  (#audit_ns: collectAxioms per theorem) ; source scan for sorry/admit/axiom/native_decide/bv_decide" + (f" ; {recheck['cmd']}" if recheck else ""),
             "trusted_base": BASE_TRUSTED + list(getattr(mod, "TRUSTED", [])),
             "theorems": sorted(theorems),
             "proof_problems": proof_problems,
